@@ -876,6 +876,7 @@ class Engine:
             rec = st.rec(obj)
             sa = self.P.lookup_method(rec.cls, "__setattr__")
             if sa is not None and not isinstance(sa, tuple) and not sa.cls.opaque:
+                st.event("attr-store", obj.addr, name, st.frames[-1].qualname if st.frames else "?")
                 outs = []
                 for (x, r) in self.call_function(st, sa, [obj, Const(name), val], {}):
                     outs.append((x, ("raise", r.exc) if isinstance(r, Raise) else None))
